@@ -142,6 +142,8 @@ def run(ctx):
     if bad: ctx.violation(bad)
     get_info_cases(ctx)
     played_with_selected(ctx)
+    from tools import c02
+    c02.table_stability(ctx)          # the table a version selects is still the FULL table after other players were built and after lenient failures
 
 
 def played_with_selected(ctx):
